@@ -10,7 +10,8 @@
       writes to ANY field of it: id, header bits, question, a record's TTL / name /
       type, rdata bytes in place, a new rdata slice, append a record or an OPT,
       truncate, delete an element, store a pointer to a record or to the rdata of another message it
-      holds), [Drop k], [Flush];
+      holds), [Drop k], [Flush], [Dump] (writeDump reads every stored message), [Load l]
+      (readDump builds one message per entry of a dump);
     - [handles s]: every message ever passed in or handed out; [cache s]: the
       cache's private messages; [served s]: the value every lookup returned;
     - [separated H m1 m2]: m1 <> m2 and no section array, no record and no rdata
@@ -132,6 +133,53 @@ Theorem c10_cached_has_no_opt ops k v :
 Proof. exact (cached_has_no_opt ops k v). Qed.
 Print Assumptions c10_cached_has_no_opt.
 
+(** ** The cache's own dump and load (writeDump / readDump)
+
+    [Dump]: every stored message is read; [Load l]: one message per entry of
+    the dump is built and stored under the entry's key. *)
+
+(** A dump changes nothing, not a single stored object: the state is the
+    same, so every later lookup returns what it returned before the dump. *)
+Theorem c10_dump_preserves_store ops : step (run ops) Dump = run ops.
+Proof. exact (dump_preserves_store ops). Qed.
+Print Assumptions c10_dump_preserves_store.
+
+Theorem c10_dump_invisible ops rest : run_from (run ops) (Dump :: rest) = run_from (run ops) rest.
+Proof. exact (dump_invisible ops rest). Qed.
+Print Assumptions c10_dump_invisible.
+
+(** After a load each key of the dump holds the value of its own (last) entry,
+    other keys keep theirs, and no message any caller holds changes. *)
+Theorem c10_load_caches_values ops l k :
+  let s := run ops in
+  cache_val (step s (Load l)) k = loaded k l (cache_val s k) /\
+  handles (step s (Load l)) = handles s /\ served (step s (Load l)) = served s /\
+  (forall h, In h (handles s) -> value (hp (step s (Load l))) h = value (hp s) h).
+Proof. exact (load_caches_values ops l k). Qed.
+Print Assumptions c10_load_caches_values.
+
+(** Every item a load creates (the one made from entry [e], after the entries
+    [l] before it) is a message of its own: no object shared with any item that
+    existed before or was created earlier by the same load, nor with any
+    message a caller holds. *)
+Theorem c10_load_items_disjoint ops l e :
+  let s := step (run ops) (Load l) in
+  let s' := step (run ops) (Load (l ++ [e])) in
+  exists c, cache s' = (fst e, c) :: cache s /\ value (hp s') c = strip_opt (snd e) /\
+    (forall k' c', In (k', c') (cache s) -> separated (hp s') c c') /\
+    (forall h, In h (handles s) -> separated (hp s') c h).
+Proof. exact (load_items_disjoint ops l e). Qed.
+Print Assumptions c10_load_items_disjoint.
+
+(** Round trip: whatever happens in between, loading a dump gives every key
+    that was in it exactly the value it held when the dump was written. *)
+Theorem c10_dump_load_roundtrip ops mid keys k v :
+  NoDup keys -> In k keys ->
+  cache_val (run ops) k = Some v ->
+  cache_val (step (run_from (run ops) mid) (Load (dump_of (run ops) keys))) k = Some v.
+Proof. exact (dump_load_roundtrip ops mid keys k v). Qed.
+Print Assumptions c10_dump_load_roundtrip.
+
 (** ** Non-vacuity: a concrete history in which the stored message and a hit
     are rewritten in every way before the next hit of the same key *)
 
@@ -159,3 +207,22 @@ Example c10_nonvacuous :
   map (value (hp (run ex_ops))) (handles (run ex_ops)) <>
   map (value (hp (run (erase_mutations ex_ops)))) (handles (run (erase_mutations ex_ops))).
 Proof. repeat split; try (vm_compute; reflexivity). vm_compute. discriminate. Qed.
+
+(** Dump, writes, /flush and load in one history: the hits before the dump,
+    after the dump and after the load are the same values, and the two loaded
+    items are different messages. *)
+Definition ex_w : mval := mkmv 12 33152 [8] [mkrv 2 28 4000 [1; 2]] [] [].
+Definition ex_ops2 : list op :=
+  [ Store 0 7 ex_v; Store 1 8 ex_w; Hit 0 7 1 (ASub 0); Hit 0 8 2 (ASub 0) ].
+Definition ex_rest : list op :=
+  [ Mutate 0 (MSetTtl An 0 0); Mutate 2 (MSetByte An 0 0 9); Flush; Hit 1 7 3 (ASub 0) ].
+
+Example c10_dump_load_nonvacuous :
+  let s := run (ex_ops2 ++ [Dump] ++ ex_rest ++ [Load (dump_of (run ex_ops2) [7; 8])] ++
+                [Hit 2 7 1 (ASub 0); Hit 2 8 2 (ASub 0)]) in
+  served s = served (run ex_ops2) ++ [None] ++ served (run ex_ops2) /\
+  match cache s with
+  | (k2, c2) :: (k1, c1) :: _ => c1 <> c2 /\ reach_recs (hp s) c1 <> reach_recs (hp s) c2
+  | _ => False
+  end.
+Proof. vm_compute. repeat split; discriminate. Qed.
